@@ -63,7 +63,7 @@ _EX_TECH = ("explicit-state breadth-first search over operation histories of the
             "canonical key, de-duplicated; every transition replayed on a fresh real exchange), with lasso histories "
             "for long runs and a conformance replay of the fast driver against the public-API driver")
 _EX_NOTE = ("Bounded: amounts 1..5 units, price grid {30,33.37,90,100,110,300}, volumes giving 0/1/2.5/2.75/4/10 units of liquidity, "
-            "configurations K0..K21 (fee x liquidity x lending x precision x balances x 1-2 pairs), depth 3-4 (quick) / "
+            "configurations K0..K34 (fee x liquidity x lending x precision incl. per-pair / per-symbol / default-only x balances x 1-3 pairs), depth 3-4 (quick) / "
             "4-5 (thorough), lassos up to 240 steps. The synchronous driver (bars delivered by calling the exchange's "
             "bar handler directly) is trusted only as far as the conformance scenarios and the per-violation public-API "
             "replay validate it.")
@@ -178,6 +178,39 @@ CHECKS.update({
 NOT_YET = "check not built yet (see DESIGN.md section 7 for the build order); no claim is made"
 
 
+# what round 3 (blind seeds + white-box reviews, DESIGN.md section 8.7) added to the scenario spaces / oracles
+ROUND3 = {
+    "C01": "Round 3: configurations in which a pair trades on a finer grid than its symbols' own precision (K24, K25).",
+    "C02": "Round 3: get_balance(symbol) for every symbol (and unknown ones) and get_loans(is_open=True) compared with the "
+           "plain listings on every transition; pair grid finer than the symbol grid.",
+    "C03": "Round 3: the hash seeds of the child processes are CHOSEN so that every two-element set of order operations, "
+           "symbols and pairs is iterated in both orders, and the digest also covers ~2300 exchange histories with "
+           "competing orders (both sides, all types) under fees, finite liquidity and lending.",
+    "C04": "Round 3: bars of other pairs sharing the order's base symbol (ETH/BTC) or quote symbol (BTC/USD), at any "
+           "price, leave the order exactly as it is; library exceptions inside the driver are violations.",
+    "C05": "Round 3: every get_orders(pair, is_open) combination and the fields of get_open_orders() entries compared with "
+           "get_orders(); all 3-cycles of a tiny alphabet x every phase of the open-list re-index (polls before the run); "
+           "precision configured through default_pair_info only.",
+    "C06": "Round 3: sells whose minimum fee exceeds the proceeds filled in pieces (K23), default_pair_info only (K27), "
+           "stop-limit boundary with stop != limit.",
+    "C07": "Round 3: roll-back of an auto-borrow request at its second loan with a minimum interest and the margin level at "
+           "exactly 100% (K31; found a genuine defect, repaired).",
+    "C08": "Round 3: 1% volume limit (K28), default_pair_info only (K26), derived pair precisions with a finer base grid and "
+           "amounts valid on both grids (K29), pair grid finer than the symbol grid (K24); fills are checked against the grid "
+           "of THEIR pair.",
+    "C09": "Round 3: rates that are not whole basis points (0.075, 12.345), the fee symbol on a cross pair quoted in BTC, "
+           "precision through default_pair_info only or derived from the symbols, an order that does not trade pays nothing.",
+    "C10": "Round 3: margin boundary probes (in every state of designated configurations the largest admissible loan plus "
+           "one precision unit is requested, on a 10M account too), default next to per-symbol lending conditions (K30), "
+           "auto-borrow orders without a lending strategy.",
+    "C11": "Round 3: auto-repay on all four order types; positive oracle (an auto-repay order that traded and closed without "
+           "repaying anything while a loan is repayable at that very moment, decided on a rebuilt copy); read-only API calls "
+           "before every action and same-timestamp bars (values cached per instant); interest periods that are not whole "
+           "steps; interest charged in the base symbol of a quote-symbol loan (K33; found a genuine defect, repaired); "
+           "get_loan / get_loans filters.",
+}
+
+
 def main():
     props = [json.loads(l) for l in open(os.path.join(VERIF, "properties.jsonl"))]
     checks = []
@@ -186,6 +219,8 @@ def main():
         pid = p["id"]
         if pid in CHECKS:
             tech, text, note, ref = CHECKS[pid]
+            if pid in ROUND3:
+                text = text + " " + ROUND3[pid]
             checks.append(dict(
                 property_id=pid, quick_cmd=f"./run {pid} quick", thorough_cmd=f"./run {pid} thorough",
                 evidence_file=f"/verif/evidence/{pid}.json", replay_cmd_template=f"./run {pid} --replay {{path}}",
